@@ -78,6 +78,8 @@ func (e *Engine) Prog() *ssa.Program { return e.i.prog }
 
 var theEngine *Engine
 
+var onceDone = map[*value]bool{}
+
 // nativeObj wraps an opaque host value (regexp, file, ...).
 type nativeObj struct{ v interface{} }
 
@@ -262,10 +264,43 @@ func init() {
 			re := (*a[0].(*value)).(*nativeObj).v.(*regexp.Regexp)
 			return re.MatchString(str(a[1]))
 		},
-		"(*sync.RWMutex).Lock":    func(fr *frame, a []value) value { return nil },
-		"(*sync.RWMutex).Unlock":  func(fr *frame, a []value) value { return nil },
-		"(*sync.RWMutex).RLock":   func(fr *frame, a []value) value { return nil },
-		"(*sync.RWMutex).RUnlock": func(fr *frame, a []value) value { return nil },
+		"(*sync.RWMutex).Lock":        func(fr *frame, a []value) value { return nil },
+		"(*sync.RWMutex).Unlock":      func(fr *frame, a []value) value { return nil },
+		"(*sync.RWMutex).RLock":       func(fr *frame, a []value) value { return nil },
+		"(*sync.RWMutex).RUnlock":     func(fr *frame, a []value) value { return nil },
+		"encoding/json.Unmarshal":     func(fr *frame, a []value) value { panic("unsupported: encoding/json (reflection)") },
+		"encoding/json.Marshal":       func(fr *frame, a []value) value { panic("unsupported: encoding/json (reflection)") },
+		"encoding/json.MarshalIndent": func(fr *frame, a []value) value { panic("unsupported: encoding/json (reflection)") },
+		"(*sync.Mutex).Lock":          func(fr *frame, a []value) value { return nil },
+		"(*sync.Mutex).Unlock":        func(fr *frame, a []value) value { return nil },
+		"(*sync.Once).Do": func(fr *frame, a []value) value {
+			k := a[0].(*value)
+			if onceDone[k] {
+				return nil
+			}
+			onceDone[k] = true
+			journalUndo(func() { delete(onceDone, k) })
+			call(fr.i, fr, token.NoPos, a[1], nil)
+			return nil
+		},
+		"sync/atomic.CompareAndSwapInt32": func(fr *frame, a []value) value {
+			p := a[0].(*value)
+			if (*p).(int32) == a[1].(int32) {
+				store(types.Typ[types.Int32], p, a[2])
+				return true
+			}
+			return false
+		},
+		"sync/atomic.AddInt32": func(fr *frame, a []value) value {
+			p := a[0].(*value)
+			n := (*p).(int32) + a[1].(int32)
+			store(types.Typ[types.Int32], p, n)
+			return n
+		},
+		"sync/atomic.LoadInt32":   func(fr *frame, a []value) value { return *a[0].(*value) },
+		"sync/atomic.StoreInt32":  func(fr *frame, a []value) value { store(types.Typ[types.Int32], a[0].(*value), a[1]); return nil },
+		"sync/atomic.LoadUint32":  func(fr *frame, a []value) value { return *a[0].(*value) },
+		"sync/atomic.StoreUint32": func(fr *frame, a []value) value { store(types.Typ[types.Uint32], a[0].(*value), a[1]); return nil },
 		"(embed.FS).Open": func(fr *frame, a []value) value {
 			f, err := native.FS.Open(str(a[1]))
 			if err != nil {
